@@ -1,5 +1,5 @@
 (* C10 — the no-delete annotation protects a node from removal, not from tainting.  Theorems only. *)
-From Esc Require Import Examples proofs.ScanTheorems.
+From Esc Require Import Examples proofs.ScanTheorems proofs.ScanRun proofs.ScanRunTheorems.
 
 (* every removal call is about a node that carries no non-empty annotation, or is force-tainted *)
 Theorem c10_protected : forall now gdry api g a nodes pods, asg_named g a ->
@@ -47,3 +47,9 @@ Print Assumptions c10_still_scaled.
 Example c10_ex : removal_targets (r_calls (ex_scan ex_opts gstate0 4800))
                = [(Some [105; 51], None); (None, Some 203); (Some [105; 50], None); (None, Some 202)].
 Proof. vm_compute. reflexivity. Qed.
+
+(* over a whole RunOnce: the checker evaluated by the correspondence holds of every group journal the model produces
+   (group names and cloud group names pairwise distinct) *)
+Theorem c10_run_once : forall s, wf_groups s -> for_groups check_C10_group s (run_journals s) = true.
+Proof. exact run_passes_C10. Qed.
+Print Assumptions c10_run_once.
